@@ -11,10 +11,12 @@ import (
 	"free5gclib/nas/nasMessage"
 	"free5gclib/nas/nasTestpacket"
 	"free5gclib/ngap"
+	"free5gclib/ngap/ngapType"
 	"free5gclib/openapi/models"
 	"net"
 
 	"encoding/binary"
+	"errors"
 	"fmt"
 	"tglib"
 	"time"
@@ -97,7 +99,11 @@ func EstablishPDU(sst int32, sd string, ue *tglib.RanUeContext, conn *sctp.SCTPC
 	// Recover assigned IP and TEID for the session.
 	// Only works if 5G-EEA0 is used as cypher
 
-	PDUSessionResourceSetupItemSUReq := msg.InitiatingMessage.Value.PDUSessionResourceSetupRequest.ProtocolIEs.List[2].Value.PDUSessionResourceSetupListSUReq.List[0]
+	PDUSessionResourceSetupListSUReq := FindPDUSessionResourceSetupListSUReq(msg)
+	if PDUSessionResourceSetupListSUReq == nil || len(PDUSessionResourceSetupListSUReq.List) == 0 {
+		ManageError("Error establishing PDU", errors.New("no PDU session resource setup list in the received message"))
+	}
+	PDUSessionResourceSetupItemSUReq := PDUSessionResourceSetupListSUReq.List[0]
 
 	clientip := DecodePDUSessionNASPDU(PDUSessionResourceSetupItemSUReq.PDUSessionNASPDU.Value)
 	teid, upfip := DecodePDUSessionResourceSetupRequestTransfer(PDUSessionResourceSetupItemSUReq.PDUSessionResourceSetupRequestTransfer)
@@ -112,6 +118,22 @@ func EstablishPDU(sst int32, sd string, ue *tglib.RanUeContext, conn *sctp.SCTPC
 	ManageError("Error establishing PDU", err)
 
 	return clientip, teid, upfip
+}
+
+// FindPDUSessionResourceSetupListSUReq
+// Function that returns the PDU Session Resource Setup Request List of a PDU SESSION RESOURCE SETUP REQUEST.
+// The list is looked up by its IE id, as optional IEs (RAN Paging Priority, NAS-PDU) may precede it.
+// It returns nil if the message is not a setup request or carries no list.
+func FindPDUSessionResourceSetupListSUReq(msg *ngapType.NGAPPDU) *ngapType.PDUSessionResourceSetupListSUReq {
+	if msg == nil || msg.InitiatingMessage == nil || msg.InitiatingMessage.Value.PDUSessionResourceSetupRequest == nil {
+		return nil
+	}
+	for _, ie := range msg.InitiatingMessage.Value.PDUSessionResourceSetupRequest.ProtocolIEs.List {
+		if ie.Id.Value == ngapType.ProtocolIEIDPDUSessionResourceSetupListSUReq {
+			return ie.Value.PDUSessionResourceSetupListSUReq
+		}
+	}
+	return nil
 }
 
 // ReleasePDU
